@@ -1,7 +1,7 @@
 (** C13 - lemmas about single steps of the SMO model (C13/Model.v): [swap] permutes every per-position array of
     the solver state by the same transposition, and one [update] over the reals keeps the coefficients in their
     box and preserves the equality constraint sum_i y_i alpha_i (and sum_i alpha_i for a same-class pair). *)
-From Coq Require Import List NArith Arith Reals Lra Lia Bool Permutation FinFun.
+From Coq Require Import List NArith Arith Reals Lra Lia Bool Permutation FinFun Floats.
 From LinfaVerif Require Import Common.Num Common.QF C13.Model C13.SpecStep.
 Import ListNotations.
 
@@ -266,3 +266,26 @@ Proof.
         [apply Rleb_true in E | apply Rleb_false in E]; try lra
   end; cbn [fst snd setn]; try (f_equal; [|f_equal]; lra).
 Qed.
+
+(** * nu-SVC: the stored support vectors are those of the published coefficients (repair 4625418, finding F-C13-S1) *)
+Lemma fit_nu_svc_stores_published_sv_l {F : Type} (o : NumOps F) (inf tiny feps : F) fuel K rows tgs eps shr lin nu m sv :
+  fit_nu_svc o inf tiny feps fuel K rows tgs eps shr lin nu = Fitted m -> mSep m = HSupport sv ->
+  sv = support_vectors o feps rows (mAlpha m).
+Proof.
+  unfold fit_nu_svc. destruct (solve _ _ _ _ _ _ _) as [m0|]; cbn [map_outcome]; [|discriminate].
+  intros H. injection H as <-. unfold with_alpha_rho_obj. cbn [mSep mAlpha].
+  destruct (mSep m0); cbn [mSep mAlpha]; intros H2; [discriminate|]. injection H2 as <-. reflexivity.
+Qed.
+
+(** before the repair the vectors were selected by the undivided coefficients: with r = 2^60 both undivided coefficients
+    (1, 1/2) exceed the threshold 100 eps_machine, none of the published ones (2^-60, 2^-61) does - two stored vectors
+    face an empty list of filtered coefficients, weighted_sum pairs nothing *)
+Definition exS1_rows : list (list PrimFloat.float) := [[1]; [2]]%float.
+Definition exS1_alpha : list PrimFloat.float := [1; 0x1p-1]%float.
+Definition exS1_r : PrimFloat.float := 0x1p+60%float.
+Lemma nusvc_pre_repair_refuted_l :
+  let published := map (fun x => PrimFloat.div x exS1_r) exS1_alpha in
+  length (nusvc_pre_repair_sv B64_ops 0x1p-52%float exS1_rows exS1_alpha) = 2%nat /\
+  length (filter (is_support B64_ops 0x1p-52%float) published) = 0%nat /\
+  length (support_vectors B64_ops 0x1p-52%float exS1_rows published) = 0%nat.
+Proof. vm_compute. repeat split. Qed.
